@@ -120,6 +120,12 @@ impl VarInt {
 //@ end
 }
 
+impl StreamId {
+//@ extract wtransport-proto/src/ids.rs >> impl StreamId >> fn into_varint
+//@ ensures r == self.0
+//@ end
+}
+
 impl SessionId {
 //@ extract wtransport-proto/src/ids.rs >> impl SessionId >> fn into_varint
 //@ ensures r == self.0.0
@@ -195,6 +201,173 @@ impl<'a> Frame<'a> {
 //@ subst `writer.put_buffer(&self.payload)?` => `writer.put_buffer(cow_as_slice(&self.payload))?`
 //@ requires self.wfx()
 //@ ensures r is Ok ==> final(writer).written() == old(writer).written() + frame_wire(*self)
+//@ end
+}
+
+// ---------------------------------------------------------------------------------------------
+// The WebTransport stream preamble on the SEND side (C01, C16): `StreamHeader::{write, write_size,
+// write_async}` and the local upgrades of stream.rs - sync and async (the driver uses the async
+// ones) - emit exactly varint(0x54) varint(session id) resp. varint(0x41) varint(session id), and
+// the resulting WT typestate carries that session id.
+// ---------------------------------------------------------------------------------------------
+//@ include _stream_common.inc
+
+//@ extract wtransport-proto/src/stream.rs >> mod types >> struct UniLocal
+//@ end
+//@ extract wtransport-proto/src/stream.rs >> mod types >> struct Quic
+//@ end
+//@ extract wtransport-proto/src/stream.rs >> mod types >> struct WT
+//@ end
+
+impl WT {
+//@ extract wtransport-proto/src/stream.rs >> mod types >> impl WT >> fn new
+//@ ensures r.session_id == session_id
+//@ end
+}
+
+impl H3 {
+//@ extract wtransport-proto/src/stream.rs >> mod types >> impl H3 >> fn new
+//@ ensures r.stream_header == stream_header, r.first_frame_done == false
+//@ end
+}
+
+impl StreamKind {
+    spec fn code(self) -> u64 {
+        match self {
+            StreamKind::Control => 0x00,
+            StreamKind::QPackEncoder => 0x02,
+            StreamKind::QPackDecoder => 0x03,
+            StreamKind::WebTransport => 0x54,
+            StreamKind::Exercise(id) => id.0,
+        }
+    }
+
+// Kani: c_streamkind_id
+//@ extract wtransport-proto/src/stream_header.rs >> impl StreamKind >> fn id
+//@ attr #[verifier::external_body]
+//@ requires self matches StreamKind::Exercise(x) ==> x.wf()
+//@ ensures r.0 == self.code(), r.wf()
+//@ nocanary
+//@ end
+}
+
+// registry constants referenced by the external_body `StreamKind::id` (Kani: p_streamkind_id_parse_inverse)
+//@ extract wtransport-proto/src/stream_header.rs >> mod stream_type_ids
+//@ attr #[verifier::external]
+//@ keepvis
+//@ subst `use crate::varint::VarInt;` => `use super::VarInt;`
+//@ end
+
+spec fn header_wire(h: StreamHeader) -> Seq<u8> {
+    if h.kind is WebTransport {
+        varint_enc(h.kind.code()) + varint_enc(h.session_id->0.val())
+    } else {
+        varint_enc(h.kind.code())
+    }
+}
+
+impl StreamHeader {
+    spec fn wf(self) -> bool {
+        &&& (self.kind is WebTransport <==> self.session_id is Some)
+        &&& (self.session_id matches Some(s) ==> s.wf())
+        &&& (self.kind matches StreamKind::Exercise(id) ==> id.wf())
+    }
+
+// `matches!(..).then(|| ..)`: taken by contract (Kani: same_header / p_stream_header_write_roundtrip)
+//@ extract wtransport-proto/src/stream_header.rs >> impl StreamHeader >> fn session_id
+//@ attr #[verifier::external_body]
+//@ requires self.wf()
+//@ ensures r == self.session_id
+//@ nocanary
+//@ end
+
+//@ extract wtransport-proto/src/stream_header.rs >> impl StreamHeader >> fn new_webtransport
+//@ subst `Self::new(StreamKind::WebTransport, Some(session_id))` => `StreamHeader { kind: StreamKind::WebTransport, session_id: Some(session_id) }`
+//@ requires session_id.wf()
+//@ ensures r.kind is WebTransport, r.session_id == Some(session_id), r.wf()
+//@ end
+
+//@ extract wtransport-proto/src/stream_header.rs >> impl StreamHeader >> fn write_size
+//@ prologue proof { axiom_varint_enc_len(self.kind.code()); if self.kind is WebTransport { axiom_varint_enc_len(self.session_id->0.val()); } }
+//@ requires self.wf()
+//@ ensures r == header_wire(*self).len(), r <= 16
+//@ end
+
+//@ extract wtransport-proto/src/stream_header.rs >> impl StreamHeader >> fn write
+//@ prologue proof { axiom_varint_enc_len(self.kind.code()); if self.kind is WebTransport { axiom_varint_enc_len(self.session_id->0.val()); } }
+//@ requires self.wf()
+//@ ensures
+//@ | r is Ok <==> old(bytes_writer).room() >= header_wire(*self).len(),
+//@ | r is Ok ==> final(bytes_writer).written() == old(bytes_writer).written() + header_wire(*self)
+//@ end
+
+//@ extract wtransport-proto/src/stream_header.rs >> impl StreamHeader >> fn write_async
+//@ subst `async fn` => `fn`
+//@ subst `W: AsyncWrite + Unpin + ?Sized,` => `W: AsyncWriter,`
+//@ subst `use crate::bytes::BytesWriterAsync;` => ``
+//@ subst `.await` => `` x2
+//@ requires self.wf()
+//@ ensures r is Ok ==> final(writer).written() == old(writer).written() + header_wire(*self)
+//@ end
+}
+
+impl Stream<BiLocal, H3> {
+//@ extract wtransport-proto/src/stream.rs >> mod bilocal >> impl StreamBiLocalH3 >> fn upgrade_size
+//@ prologue proof { axiom_varint_enc_len(0x41); axiom_varint_enc_len(session_id.val()); }
+//@ requires session_id.wf()
+//@ ensures r == varint_len(0x41) + varint_len(session_id.val()), r == 2 + varint_len(session_id.val())
+//@ end
+
+//@ extract wtransport-proto/src/stream.rs >> mod bilocal >> impl StreamBiLocalH3 >> fn upgrade
+//@ resub `\(mut self\b` => `(self`
+//@ resub `self\.stage\.set_first_frame\(\)` => `this.stage.set_first_frame()`
+//@ resub `kind: self\.kind` => `kind: this.kind`
+//@ rename `StreamBiLocalWT` => `Stream::<BiLocal, WT>`
+//@ rename `-> Stream::<BiLocal, WT>` => `-> Stream<BiLocal, WT>`
+//@ prologue let mut this = self; proof { axiom_varint_enc_len(0x41); axiom_varint_enc_len(session_id.val()); }
+//@ requires session_id.wf(), !self.stage.first_frame_done, old(bytes_writer).room() >= 2 + varint_len(session_id.val())
+//@ ensures
+//@ | final(bytes_writer).written() == old(bytes_writer).written() + (varint_enc(0x41) + varint_enc(session_id.val())),
+//@ | r.stage.session_id == session_id
+//@ end
+
+//@ extract wtransport-proto/src/stream.rs >> mod bilocal >> impl StreamBiLocalH3 >> fn upgrade_async
+//@ subst `async fn` => `fn`
+//@ subst `W: AsyncWrite + Unpin + ?Sized,` => `W: AsyncWriter,`
+//@ substw `.write_async(writer) .await?;` => `.write_async(writer)?;`
+//@ resub `\(\s*mut self\b` => `(self`
+//@ resub `self\.stage\.set_first_frame\(\)` => `this.stage.set_first_frame()`
+//@ resub `kind: self\.kind` => `kind: this.kind`
+//@ rename `Result<StreamBiLocalWT, IoWriteError>` => `Result<Stream<BiLocal, WT>, IoWriteError>`
+//@ rename `Ok(StreamBiLocalWT {` => `Ok(Stream::<BiLocal, WT> {`
+//@ prologue let mut this = self;
+//@ requires session_id.wf(), !self.stage.first_frame_done
+//@ ensures
+//@ | r matches Ok(wt) ==> final(writer).written() == old(writer).written() + (varint_enc(0x41) + varint_enc(session_id.val()))
+//@ |     && wt.stage.session_id == session_id
+//@ end
+}
+
+impl Stream<UniLocal, Quic> {
+//@ extract wtransport-proto/src/stream.rs >> mod unilocal >> impl StreamUniLocalQuic >> fn upgrade
+//@ rename `-> StreamUniLocalH3` => `-> Stream<UniLocal, H3>`
+//@ rename `StreamUniLocalH3 {` => `Stream::<UniLocal, H3> {`
+//@ requires stream_header.wf(), old(bytes_writer).room() >= header_wire(stream_header).len()
+//@ ensures
+//@ | final(bytes_writer).written() == old(bytes_writer).written() + header_wire(stream_header),
+//@ | r.stage.stream_header == Some(stream_header)
+//@ end
+
+//@ extract wtransport-proto/src/stream.rs >> mod unilocal >> impl StreamUniLocalQuic >> fn upgrade_async
+//@ subst `async fn` => `fn`
+//@ subst `W: AsyncWrite + Unpin + ?Sized,` => `W: AsyncWriter,`
+//@ subst `.await` => ``
+//@ rename `Result<StreamUniLocalH3, IoWriteError>` => `Result<Stream<UniLocal, H3>, IoWriteError>`
+//@ rename `Ok(StreamUniLocalH3 {` => `Ok(Stream::<UniLocal, H3> {`
+//@ requires stream_header.wf()
+//@ ensures
+//@ | r matches Ok(h3) ==> final(writer).written() == old(writer).written() + header_wire(stream_header)
+//@ |     && h3.stage.stream_header == Some(stream_header)
 //@ end
 }
 
